@@ -82,7 +82,7 @@ def cases(rng, tier, X):
         out.append(('a%d' % k, ops))
     # the universal traffic and the small-scope sequences of the frame-level checks, here under ASan + UBSan (use after free, double free,
     # reads of freed list nodes, signed overflow ... in any handler, after any history)
-    for k in range(60 if tier == 'quick' else 6000):
+    for k in range(150 if tier == 'quick' else 6000):
         out.append(('u%d' % k, F.universal(rng)))
         if k % 2 == 0:
             # the same kind of traffic with every kind of platform fault injected at random points
